@@ -3,7 +3,7 @@
    Every lemma also shows the fuel sufficient: the result is `Ok _`, never `OutOfFuel`. *)
 From Coq Require Import List NArith ZArith Bool Lia.
 From Delb.Base Require Import PyStr.
-From Delb.Tree Require Import ATree ITree ANav ANavFacts.
+From Delb.Tree Require Import ATree ITree ANav ANavFacts ANavOrderFacts.
 From Delb.Conc Require Import CTree CNav.
 Import ListNotations.
 
@@ -261,5 +261,80 @@ Section WalkFacts.
     { unfold a_descendants in Hi. destruct (a_sub_of_id t Hnd n Hn) as [s [Hs [E Hsub]]]. rewrite Hsub in Hi.
       apply in_flat_map in Hi. destruct Hi as [k [Hk Hi]]. apply (ids_sub_incl t k (kid_in_subtrees t s k Hs Hk)). exact Hi. }
     rewrite (Htx i Hin), (Hct i Hin). reflexivity.
+  Qed.
+  (* ---------------------------------------------------------------- ancestors, depth *)
+  Lemma ancestors_bound n : length (a_ancestors t n) < fc.
+  Proof. destruct (ancestors_length t n) as [H|H]; [lia|rewrite H; cbn; lia]. Qed.
+  Lemma anc_loop_spec F : forall fuel n, In n (ids t) -> length (a_ancestors t n) < fuel ->
+    anc_loop parent fuel F n = Ok (filter F (a_ancestors t n)).
+  Proof.
+    induction fuel as [|f IH]; intros n Hn Hf; [lia|]. cbn [anc_loop]. rewrite (Hparent n Hn). cbn [rbind].
+    rewrite (ancestors_chain t Hnd n Hn) in Hf |- *. destruct (a_parent t n) as [p|] eqn:Hp; [|reflexivity].
+    rewrite (IH p (parent_in n p Hp)) by (cbn in Hf; lia). reflexivity.
+  Qed.
+  Theorem ancestors_spec F n : In n (ids t) -> w_iterate_ancestors parent fc F n = Ok (filter F (a_ancestors t n)).
+  Proof. intros Hn. apply anc_loop_spec; [exact Hn|apply ancestors_bound]. Qed.
+  Lemma tag_depth_spec : forall fuel n acc, In n (ids t) -> length (a_ancestors t n) < fuel ->
+    tag_depth parent fuel n acc = Ok (acc + length (a_ancestors t n)).
+  Proof.
+    induction fuel as [|f IH]; intros n acc Hn Hf; [lia|]. cbn [tag_depth]. rewrite (Hparent n Hn). cbn [rbind].
+    rewrite (ancestors_chain t Hnd n Hn) in Hf |- *. destruct (a_parent t n) as [p|] eqn:Hp; [|cbn; f_equal; lia].
+    rewrite (IH p (S acc) (parent_in n p Hp)) by (cbn in Hf; lia). cbn [length]. f_equal. lia.
+  Qed.
+  Theorem depth_spec n : In n (ids t) -> is_tag n = true \/ is_text n = true \/ a_parent t n <> None ->
+    w_depth parent is_tag is_text fc n = Ok (a_depth t n).
+  Proof.
+    intros Hn Hk. unfold w_depth, a_depth. destruct (is_tag n) eqn:Htag.
+    - rewrite (tag_depth_spec fc n 0 Hn (ancestors_bound n)). reflexivity.
+    - rewrite (Hparent n Hn). cbn [rbind]. rewrite (ancestors_chain t Hnd n Hn). destruct (a_parent t n) as [p|] eqn:Hp.
+      + rewrite (tag_depth_spec fc p 0 (parent_in n p Hp) (ancestors_bound p)). reflexivity.
+      + destruct Hk as [Hk|[Hk|Hk]]; [discriminate|rewrite Hk; reflexivity|congruence].
+  Qed.
+  (* ---------------------------------------------------------------- preceding axis *)
+  Lemma filter_all {A} (P : A -> bool) l : (forall x, P x = true) -> filter P l = l.
+  Proof. intros H. induction l as [|x r IH]; [reflexivity|]. cbn. rewrite H, IH. reflexivity. Qed.
+  Lemma flat_map_length_in {A B} (f : A -> list B) l x : In x l -> length (f x) <= length (flat_map f l).
+  Proof.
+    induction l as [|a r IH]; intros H; [destruct H|]. cbn. rewrite app_length. destruct H as [->|H]; [lia|specialize (IH H); lia].
+  Qed.
+  Lemma concat_res_post (rec : nid -> res (list nid)) (g : nid -> list nid) : forall l,
+    (forall c, In c l -> rec c = Ok (g c)) -> concat_res rec true l = Ok (flat_map (fun c => g c ++ [c]) l).
+  Proof.
+    induction l as [|c r IH]; intros H; [reflexivity|]. cbn [concat_res flat_map]. rewrite (H c (or_introl eq_refl)). cbn [rbind].
+    rewrite IH by (intros x Hx; apply H; right; exact Hx). cbn [rbind]. rewrite <- app_assoc. reflexivity.
+  Qed.
+  Lemma rev_sub_spec : forall fuel q, In q (ids t) -> length (a_descendants t q) < fuel ->
+    rev_sub first_raw next_raw is_tag fc fuel q = Ok (rev (a_descendants t q)).
+  Proof.
+    induction fuel as [|f IH]; intros q Hq Hf; [lia|]. cbn [rev_sub]. rewrite (children_spec ftrue ftrue q Hq). cbn [rbind].
+    rewrite (filter_all _ _ (fun x => eq_refl)).
+    rewrite (descendants_preorder t Hnd q Hq) in Hf |- *.
+    rewrite (concat_res_post _ (fun c => rev (a_descendants t c))).
+    - f_equal. rewrite (rev_flat_map (fun k => k :: a_descendants t k)). reflexivity.
+    - intros c Hc. apply in_rev in Hc. apply IH; [exact (children_in t q c Hc)|].
+      pose proof (flat_map_length_in (fun k => k :: a_descendants t k) _ c Hc) as H. cbn [length] in H. lia.
+  Qed.
+  Lemma preceding_length n : length (a_preceding t n) <= length (ids t).
+  Proof. unfold a_preceding. rewrite rev_length. apply before_length. Qed.
+  Lemma prec_loop_spec : forall fuel n, In n (ids t) -> length (a_preceding t n) < fuel ->
+    prec_loop first_raw next_raw prev_cand parent is_tag fc fuel n = Ok (a_preceding t n).
+  Proof.
+    induction fuel as [|f IH]; intros n Hn Hf; [lia|]. cbn [prec_loop].
+    pose proof (fetch_preceding_sibling_spec ftrue ftrue n Hn) as Hps. unfold w_fetch_preceding_sibling in Hps. rewrite Hps.
+    cbn [rbind]. rewrite (filter_all _ _ (fun x => eq_refl)). change (hd_error (a_psibs t n)) with (a_prev_sibling t n).
+    rewrite (preceding_step t Hnd n Hn) in Hf |- *. destruct (a_prev_sibling t n) as [q|] eqn:Eq.
+    - assert (Hq : In q (ids t)).
+      { apply (psibs_in t Hnd n). unfold a_prev_sibling in Eq. destruct (a_psibs t n); [discriminate|]. injection Eq as ->. left. reflexivity. }
+      rewrite (rev_sub_spec fc q Hq) by (pose proof (descendants_length q Hq); lia). cbn [rbind].
+      unfold ANavOrderFacts.sub_ids in *. cbn [rev] in Hf |- *. rewrite !app_length in Hf. cbn [length] in Hf.
+      rewrite (IH q Hq) by lia. cbn [rbind]. rewrite <- app_assoc. reflexivity.
+    - rewrite (Hparent n Hn). cbn [rbind]. destruct (a_parent t n) as [u|] eqn:Hu; [|reflexivity].
+      rewrite (IH u (parent_in n u Hu)) by (cbn in Hf; lia). reflexivity.
+  Qed.
+  Theorem preceding_spec fuel F n : In n (ids t) -> length (ids t) < fuel ->
+    w_iterate_preceding first_raw next_raw prev_cand parent is_tag fc fuel F n = Ok (filter F (a_preceding t n)).
+  Proof.
+    intros Hn Hf. unfold w_iterate_preceding. rewrite (prec_loop_spec fuel n Hn) by (pose proof (preceding_length n); lia).
+    reflexivity.
   Qed.
 End WalkFacts.
